@@ -1056,10 +1056,15 @@ impl TypeLayout {
     /// Is this the type of `[]`, or of a list that holds a `[]` at some depth? (see `assignment_no_type`)
     pub fn has_list_without_element_type(&self) -> bool {
         match self.disregard_distractors(true) {
+            // `[nil]` is no better than `[]`: its element type is the type of `nil`, which every optional accepts
             Self::List(ListType::Mixed(types)) => {
-                types.is_empty() || types.iter().any(|ty| ty.has_list_without_element_type())
+                types.is_empty()
+                    || types.iter().all(|ty| matches!(ty.as_ref(), Self::Optional(None)))
+                    || types.iter().any(|ty| ty.has_list_without_element_type())
             }
-            Self::List(ListType::Open(ty)) => ty.has_list_without_element_type(),
+            Self::List(ListType::Open(ty)) => {
+                matches!(ty.as_ref().as_ref(), Self::Optional(None)) || ty.has_list_without_element_type()
+            }
             _ => false,
         }
     }
@@ -2011,6 +2016,12 @@ impl Parser {
             }
 
             return Ok(ListType::Open(Box::new(type_vec.remove(0))));
+        }
+
+        // `[]` as a TYPE says nothing about elements: it is accepted by every list type and accepts the empty list,
+        // so a variable or parameter of this type carries a `[str...]` to where an `[int...]` is wanted
+        if type_vec.is_empty() {
+            bail!("a list type needs its element type(s): write `[int...]` or `[int, str]`, not `[]`");
         }
 
         Ok(ListType::Mixed(type_vec))
